@@ -333,6 +333,8 @@ func pkgImpl(line string) string {
 		return pkgSpecDecLine(f[2:])
 	case "rows":
 		return pkgRowsLine(f[2:])
+	case "two":
+		return pkgTwoLine(f[2:])
 	}
 	return "bad-op"
 }
@@ -396,6 +398,57 @@ func pkgRowsLine(f []string) (out string) {
 		}
 		pkgs = append(pkgs, pkg)
 		last = pkg
+	}
+	var shown []string
+	for _, pkg := range pkgs {
+		sh := strings.Fields(c.Show(pkg))
+		shown = append(shown, strings.Join(sh[1:], " "))
+	}
+	return "ok " + strings.Join(shown, " ;; ")
+}
+
+// pkgTwoLine implements `pkg two <kind> <fieldsA> ;; <fieldsB>` (oracle only): two packages of one kind decoded
+// one after the other (each from a fresh LookupPackage, as the channel does), BOTH shown after the second has
+// been read: what one decode produced does not change with the next, and the next starts from nothing.
+// Answer: `ok <fields of A> ;; <fields of B>`.
+func pkgTwoLine(f []string) (out string) {
+	defer func() {
+		if r := recover(); r != nil {
+			out = "panic"
+		}
+	}()
+	if len(f) < 2 {
+		return "bad-op"
+	}
+	c := codecRegistry[f[0]]
+	if c == nil || c.SpecEnc == nil || c.NeedsCtx {
+		return "bad-op"
+	}
+	var sets [][]string
+	cur := []string{}
+	for _, t := range f[1:] {
+		if t == ";;" {
+			sets = append(sets, cur)
+			cur = []string{}
+			continue
+		}
+		cur = append(cur, t)
+	}
+	sets = append(sets, cur)
+	var pkgs []tds.Package
+	for _, fs := range sets {
+		bs, ok := c.SpecEnc(fs)
+		if !ok || len(bs) < 1 {
+			return "bad-op"
+		}
+		pkg, e := lookupWithCtx(bs[0], nil)
+		if e != "" {
+			return e
+		}
+		if cl, n := decodeInto(pkg, bs[1:]); cl != "ok" || n != len(bs)-1 {
+			return cl
+		}
+		pkgs = append(pkgs, pkg)
 	}
 	var shown []string
 	for _, pkg := range pkgs {
